@@ -43,6 +43,13 @@ BAD_PREFIXES = ("badret.", "noerrno.", "tobuf-", "newbuf", "cbfail-", "sizemisma
 
 
 MAX_ENUM_OCTETS = 6000
+# every third module is built with -fwide-types and then carries INTEGER values up to 2^330 (the hex-dump XER paths)
+FLAG_SETS = [("-fcompound-names",), ("-fcompound-names",), ("-fcompound-names", "-fwide-types")]
+WIDE_VALUES_WITH_WIDE_TYPES = True
+
+
+def flags_for(wseed):
+    return FLAG_SETS[wseed % 3]
 
 
 def run_case(sess, mod, tname, t, x, feats, acc):
